@@ -8,7 +8,8 @@
      antismash/detection/nrps_pks_domains/domain_identification.py : filter_nonterminal_docking_domains
    No proofs in this file.
    Transcribes the code after the repairs F41 (merge: least start, greatest end), F42 (grouping loop
-   over hits[1:]) and F43 (both hmmer sorts by (protein_start, ranking_stats)).
+   over hits[1:]), F43 (both hmmer sorts by (protein_start, ranking_stats)) and FC13a (filter_results
+   unites all the groups a linking pair touches).
 
    Numbers.  Floats never enter.  A bitscore s travels as the integer 2*s (the harness generates
    multiples of 0.5), an e-value as the integer e with float value e*1e-10 (strictly monotone), a
@@ -271,13 +272,27 @@ Definition hsp_overlap_size (a b : fhit) : res Z :=
 Definition fmem (x : fhit) (s : list fhit) : bool := existsb (fun y => f_id x =? f_id y) s.
 Definition fadd (x : fhit) (s : list fhit) : list fhit := if fmem x s then s else s ++ [x].
 
-(* for group in overlapping_groups: if pairing & group: group.update(pairing) *)
-Fixpoint update_groups (a b : fhit) (groups : list (list fhit)) : list (list fhit) * bool :=
+(* pairing & group *)
+Definition touches (a b : fhit) (g : list fhit) : bool := fmem a g || fmem b g.
+(* group.update(other) *)
+Definition fupdate (g other : list fhit) : list fhit := fold_left (fun s x => fadd x s) other g.
+
+(* linked = [group for group in overlapping_groups if pairing & group]
+   if not linked: (None) ...
+   linked[0].update(pairing, *linked[1:])
+   overlapping_groups = [group for group in overlapping_groups if not any(group is other for other in linked[1:])]
+   - the first linked group stays where it is and takes the pair and every later linked group, which are dropped *)
+Fixpoint unite_groups (a b : fhit) (groups : list (list fhit)) : option (list (list fhit)) :=
   match groups with
-  | [] => ([], true)
+  | [] => None
   | g :: gs =>
-    let '(gs', needed) := update_groups a b gs in
-    if fmem a g || fmem b g then (fadd b (fadd a g) :: gs', false) else (g :: gs', needed)
+    if touches a b g
+    then Some (fold_left fupdate (filter (touches a b) gs) (fadd b (fadd a g))
+               :: filter (fun g' => negb (touches a b g')) gs)
+    else match unite_groups a b gs with
+         | Some gs' => Some (g :: gs')
+         | None => None
+         end
   end.
 
 Definition pair_step (h : fhit) (s : res (list (list fhit))) (o : fhit) : res (list (list fhit)) :=
@@ -285,8 +300,10 @@ Definition pair_step (h : fhit) (s : res (list (list fhit))) (o : fhit) : res (l
   if f_id h =? f_id o then Ok groups else
   do size <- hsp_overlap_size h o;
   if size <=? 20 then Ok groups else
-  let '(groups', needed) := update_groups h o groups in
-  Ok (if needed then groups' ++ [[h; o]] else groups').
+  match unite_groups h o groups with
+  | Some groups' => Ok groups'
+  | None => Ok (groups ++ [[h; o]])
+  end.
 
 Definition overlapping_groups (cds : list fhit) : res (list (list fhit)) :=
   fold_left (fun s h => fold_left (pair_step h) cds s) cds (Ok []).
@@ -381,43 +398,32 @@ Definition distinct_scores (cds : list fhit) : bool := znodup (map f_sc cds).
 Definition competing (eqg : list Z) (mine : list fhit) : bool :=
   negb (zlen (filter (fun p => mem Z.eqb p eqg) (dedupe Z.eqb (map f_prof mine))) <? 2).
 
-(* the guard under which the groups the loop builds are the connected components: every group lies
-   in a group that contains every group it meets.  (The loop never unites two groups; where this
-   fails the class is filter_groups_not_merged.) *)
-Definition fsubset (g g' : list fhit) : bool := forallb (fun x => fmem x g') g.
-Definition fmeets (g g' : list fhit) : bool := existsb (fun x => fmem x g') g.
-Definition fclosed (gs : list (list fhit)) (g : list fhit) : bool :=
-  forallb (fun g'' => negb (fmeets g'' g) || fsubset g'' g) gs.
-Definition groups_guard (gs : list (list fhit)) : bool :=
-  forallb (fun g => existsb (fun g' => fsubset g g' && fclosed gs g') gs) gs.
-
 (* what the property demands of one gene under one equivalence group: of every connected component
    of the overlap relation exactly the best-scoring hit stays, everything else is untouched.
-   result: (results', mine', applicable (domain and pairwise distinct scores), guard) *)
-Definition fr_step_spec (eqg : list Z) (results mine : list fhit) : list fhit * list fhit * bool * bool :=
+   result: (results', mine', applicable (domain and pairwise distinct scores)) *)
+Definition fr_step_spec (eqg : list Z) (results mine : list fhit) : list fhit * list fhit * bool :=
   if competing eqg mine then
     let dead := filter (fun h => negb (comp_best mine h)) mine in
     (filter (fun r => negb (fmem r dead)) results, filter (comp_best mine) mine,
-     fwf mine && distinct_scores mine,
-     match overlapping_groups mine with Ok gs => groups_guard gs | Err _ => false end)
-  else (results, mine, true, true).
+     fwf mine && distinct_scores mine)
+  else (results, mine, true).
 Fixpoint fr_genes_spec (eqg : list Z) (results : list fhit) (by_id : list (list fhit))
-  : list fhit * list (list fhit) * bool * bool :=
+  : list fhit * list (list fhit) * bool :=
   match by_id with
-  | [] => (results, [], true, true)
+  | [] => (results, [], true)
   | mine :: rest =>
-    let '(r1, m1, a1, g1) := fr_step_spec eqg results mine in
-    let '(r2, rest', a2, g2) := fr_genes_spec eqg r1 rest in
-    (r2, m1 :: rest', a1 && a2, g1 && g2)
+    let '(r1, m1, a1) := fr_step_spec eqg results mine in
+    let '(r2, rest', a2) := fr_genes_spec eqg r1 rest in
+    (r2, m1 :: rest', a1 && a2)
   end.
 Fixpoint fr_spec (eqgs : list (list Z)) (results : list fhit) (by_id : list (list fhit))
-  : list fhit * list (list fhit) * bool * bool :=
+  : list fhit * list (list fhit) * bool :=
   match eqgs with
-  | [] => (results, by_id, true, true)
+  | [] => (results, by_id, true)
   | eqg :: more =>
-    let '(r1, b1, a1, g1) := fr_genes_spec eqg results by_id in
-    let '(r2, b2, a2, g2) := fr_spec more r1 b1 in
-    (r2, b2, a1 && a2, g1 && g2)
+    let '(r1, b1, a1) := fr_genes_spec eqg results by_id in
+    let '(r2, b2, a2) := fr_spec more r1 b1 in
+    (r2, b2, a1 && a2)
   end.
 
 (* ------------------------------------------------------------------ filter_nonterminal_docking_domains *)
@@ -590,10 +596,10 @@ Definition run_C13 (fn : Z) (l : list Z) : list Z :=
          | Some ((a, b), []) => eRes eHit (merge_checked a b)
          | _ => bad_input
          end
-  | 105 => (* payload of fn 5 followed by the result: [ok; applicable; guard; result = specification] *)
+  | 105 => (* payload of fn 5 followed by the result: [ok; applicable; result = specification] *)
          match dPair (dList (dList dZ)) (dPair (dList dFH) (dList (dList dFH))) l with
          | Some ((eqgs, (results, by_id)), r) =>
-           let '(sr, sb, app0, grd) := fr_spec eqgs results by_id in
+           let '(sr, sb, app0) := fr_spec eqgs results by_id in
            let app := app0 && znodup (map f_id (concat by_id)) in
            let same :=
              match r with
@@ -605,7 +611,7 @@ Definition run_C13 (fn : Z) (l : list Z) : list Z :=
                end
              | _ => false
              end in
-           eBool (negb app || same) ++ eBool app ++ eBool grd ++ eBool same
+           eBool (negb app || same) ++ eBool app ++ eBool same
          | _ => bad_input
          end
   | 101 => run_refine_spec true l
